@@ -5,24 +5,24 @@
    chunk is obtained: recvfrom()[0] / recv()).  An empty result means "peer closed the connection"; the scripted
    receiver of the harness returns b'' once the script is exhausted, so the end of the list is an empty chunk.
 
-   THIS VERSION MODELS THE UNCHANGED CODE:
+   The code modelled is the repaired read() (worktree commit "fix: SocketStream.read carries incomplete lines over
+   correctly for any chunking"):
 
        def read(self):
            partial: bytes = b''
            while True:
                body = self.recv()
-               if not body:                                   # Server closed connection
+               if not body:                                            # Server closed connection
                    return None
-               lines = body.splitlines(keepends=True)
-               line = partial + lines[0]                      # last incomplete line
-               if line:
-                   yield line
+               lines = (partial + body).splitlines(keepends=True)      # prepend the carried-over incomplete line
                partial = b''
-               if lines[-1].endswith(b'\n'):
-                   yield from lines[1:]                       # all lines are complete
-               else:
-                   yield from lines[1:-1]                     # the last line was only partially received
-                   partial = lines[-1]
+               if not lines[-1].endswith(b'\n'):
+                   partial = lines.pop()                               # the last line was only partially received
+               yield from lines                                        # all remaining lines are complete
+
+   (The unchanged code split `body` alone, yielded `partial + lines[0]` unconditionally and set `partial = lines[-1]`
+   when the chunk did not end in LF: a newline-free chunk was yielded AND carried, a chunk ending between CR and LF
+   delivered the line twice.  Stage 1 of this layer modelled that code and refuted C06 with it; see NOTES_socket.md.)
 *)
 From Coq Require Import List ZArith Bool.
 Require Import Prim.Splitlines.
@@ -31,14 +31,15 @@ Open Scope Z_scope.
 
 Definition sock_bytes := list Z.
 
-(* one pass of the loop body for a non-empty [body]: (lines yielded, new partial) *)
+(* one pass of the loop body for a non-empty [body]: (lines yielded, new partial).
+   lines[-1] cannot raise IndexError: body is non-empty, hence so is (partial + body).splitlines(); [last _ []] and
+   [removelast] are only ever applied to a non-empty list (Proofs/SocketProofs.v, sock_iteration_nonempty). *)
 Definition sock_iteration (partial body : sock_bytes) : list sock_bytes * sock_bytes :=
-  let lines := splitlines body in
-  let line := partial ++ nth 0 lines [] in                       (* lines[0]: body is non-empty, so is lines *)
-  let y1 := match line with [] => [] | _ => [line] end in
+  let lines := splitlines (partial ++ body) in
   let partial := [] in
-  if endswith1 (last lines []) LF then (y1 ++ tl lines, partial)
-  else (y1 ++ removelast (tl lines), last lines []).
+  if negb (endswith1 (last lines []) LF)
+  then (removelast lines, last lines [])                          (* partial = lines.pop() *)
+  else (lines, partial).
 
 Fixpoint sock_read_loop (partial : sock_bytes) (chunks : list sock_bytes) : list sock_bytes :=
   match chunks with
@@ -47,7 +48,7 @@ Fixpoint sock_read_loop (partial : sock_bytes) (chunks : list sock_bytes) : list
     match body with
     | [] => []                                                    (* if not body: return *)
     | _ => let '(ys, partial') := sock_iteration partial body in
-           ys ++ sock_read_loop partial' rest
+           ys ++ sock_read_loop partial' rest                     (* yield from lines; next iteration *)
     end
   end.
 
